@@ -9,7 +9,7 @@ use std::net::{IpAddr, SocketAddr, TcpListener};
 use std::str::FromStr;
 
 use crate::request::{METHOD, Request};
-use crate::response::{Response, STATUS_CODE_REASON_PHRASE};
+use crate::response::{Response, STATUS_CODE_REASON_PHRASE, StatusCodeReasonPhrase};
 use crate::app::App;
 use crate::application::Application;
 use crate::core::{New};
@@ -86,6 +86,10 @@ impl Server {
     }
 
     pub fn bad_request_response(message: String) -> Vec<u8> {
+        Server::error_response(STATUS_CODE_REASON_PHRASE.n400_bad_request, message)
+    }
+
+    pub fn error_response(status_code_reason_phrase: &'static StatusCodeReasonPhrase, message: String) -> Vec<u8> {
         let error_request = Request {
             method: METHOD.get.to_string(),
             request_uri: "".to_string(),
@@ -105,7 +109,7 @@ impl Server {
 
         let header_list = Header::get_header_list(&error_request);
         let error_response: Response = Response::get_response(
-            STATUS_CODE_REASON_PHRASE.n400_bad_request,
+            status_code_reason_phrase,
             Some(header_list),
             Some(vec![content_range])
         );
@@ -172,7 +176,28 @@ impl Server {
 
         let request: Request = boxed_request.unwrap();
 
-        let app_processing = app.execute(&request, &connection);
+        let boxed_app_processing = std::panic::catch_unwind(
+            std::panic::AssertUnwindSafe(|| app.execute(&request, &connection))
+        );
+        if boxed_app_processing.is_err() {
+            // a panicking handler must not take the worker thread down with it
+            let message = "request handler panicked".to_string();
+            let response = Server::error_response(STATUS_CODE_REASON_PHRASE.n500_internal_server_error, message.clone());
+
+            let boxed_stream = stream.write_all(response.borrow());
+            if boxed_stream.is_ok() {
+                let boxed_flush = stream.flush();
+                if boxed_flush.is_err() {
+                    return Err(boxed_flush.err().unwrap().to_string());
+                }
+            } else {
+                let write_message = boxed_stream.err().unwrap().to_string();
+                return Err(write_message);
+            };
+            return Err(message);
+        }
+
+        let app_processing = boxed_app_processing.unwrap();
         if app_processing.is_err() {
             let message = app_processing.as_ref().err().unwrap().to_string();
             let response = Server::bad_request_response(message.clone());
